@@ -79,6 +79,29 @@ func vAttrsEqual(a abci.Event, b sdk.Event) bool {
 	return true
 }
 
+// vAttrsCovered: the typed event the parser produced says nothing the raw
+// event does not say - every attribute of its re-encoding is an attribute of
+// the raw event (same key, same value).  The raw event may carry further
+// attributes the typed event has no field for; they do not make two typed
+// events unequal.
+func vAttrsCovered(raw abci.Event, re sdk.Event) bool {
+	if raw.Type != re.Type {
+		return false
+	}
+	have := map[string]int{}
+	for _, a := range raw.Attributes {
+		have[string(a.Key)+"\x00"+string(a.Value)]++
+	}
+	for _, a := range re.Attributes {
+		k := string(a.Key) + "\x00" + string(a.Value)
+		if have[k] == 0 {
+			return false
+		}
+		have[k]--
+	}
+	return true
+}
+
 // vCanonEvent renders a typed event as "action|id|extra".
 func vCanonEvent(ev sdkutil.ModuleEvent) string {
 	switch e := ev.(type) {
@@ -290,7 +313,7 @@ func (m *vMonC16) AfterTx(h *vHist, o *vTxObs) {
 			lifecycle = append(lifecycle, vCanonFromRaw(e))
 			continue
 		}
-		if re := mev.ToSDKEvent(); !vAttrsEqual(e, re) {
+		if re := mev.ToSDKEvent(); !vAttrsCovered(e, re) {
 			h.Violation("decoded-event-equals-emitted", kind, fmt.Sprintf("emitted %s, decoded event re-encodes to %s", vEventString(e), vEventString(abci.Event(re))))
 		}
 		c := vCanonEvent(mev)
